@@ -23,9 +23,9 @@ def model_check(ctx):
         ctx.mc_negative("Yee", "MC_Yee_C01_neg4.cfg")  # one difference shifted the wrong way
     ctx.assumptions += [
         "energy = sum wE eps |E|^2 + sum wH mu Re(conj(H_prev) H), wE = primal width along the component x dual widths across it (dual[0] = w[0] as in _metric_scale), wH the converse; computed by TLC on integers (exact records) or by numpy in the harness (tolerance records)",
-        "initial states satisfy the wall conditions (tangential E = 0 on PEC face cells, tangential H = 0 on PMC face cells); the first boundary used is after step 1 so that H_prev exists",
+        "initial states satisfy the wall conditions (tangential E = 0 on PEC face cells, tangential H = 0 on PMC face cells); for the initial state H_prev is defined by the documented H update (exact records: Yee!Prime in the trace spec; tolerance records: the code's own backward())",
         "exact records: courant_factor = sqrt(3)/2 (courant_number = 1/2), inv_eps, inv_mu in {1/2,1,2}, integer fields; Bloch phases exp(i k L) in {1,i,-1,-i}",
-        "tolerance records (conductivity, non-uniform grids, random float materials/fields, generic Bloch vectors): |W' - W| <= 1e-11 W1 per step, with conductivity W' - W <= 1e-11 W1",
+        "tolerance records (conductivity, non-uniform grids, random float materials/fields, generic Bloch vectors): |W' - W| <= 1e-11 S1 per step, with conductivity W' - W <= 1e-11 S1, S1 = sum of the absolute values of the terms of W after step 1",
         "bare zero-field halo faces are obtained by removing the wall object of that face from the ObjectContainer returned by place_objects",
     ]
 
@@ -89,9 +89,9 @@ def observe(case):
     cfg = case["cfg"]
     rs = np.random.RandomState(case["seed"])
     obj, arrays, config = Y.build(cfg)
-    fwd, _, arrays, config = Y.steppers(obj, arrays, config)
+    fwd, bwd, arrays, config = Y.steppers(obj, arrays, config, with_backward=True)
     dt = Y.field_dtype(arrays)
-    vf = jax.vmap(fwd)
+    vf, vb = jax.vmap(fwd), jax.vmap(bwd)
     rec = {"id": case["id"], "kind": "energy", "tol": TOL, "devtol": 1000, "runs": [], "mons": []}
     if case["mode"] == "exact":
         E0, H0 = Y.int_states(cfg, rs, n_dense=6, n_pairs=4, n_basis=case.get("nb"))
@@ -111,8 +111,9 @@ def observe(case):
             rec["runs"].append({"S": S, "dev": Y.ppb(dev), "t0": 0, "ab": [0, 0]})
         W1 = Y.energy(cfg, arrays, E1, H0, H1)
         W2 = Y.energy(cfg, arrays, E2, H1, H2)
-        ok = W1 > 0
-        worst = float(np.max(np.abs(W2[ok] - W1[ok]) / W1[ok])) if np.any(ok) else 0.0
+        ref = Y.energy_scale(cfg, arrays, E1, H0, H1)
+        ok = ref > 0
+        worst = float(np.max(np.abs(W2[ok] - W1[ok]) / ref[ok])) if np.any(ok) else 0.0
         rec["mons"].append({"name": "energy changed over a lossless step (float64 evaluation of the exact run)", "d": Y.scaled(worst), "two": True})
         rec["nstates"] = int(B)
     else:
@@ -122,15 +123,19 @@ def observe(case):
         E0, H0 = Y.float_states(cfg, rs, B, cplx)
         E, H = jnp.asarray(E0, dtype=dt), jnp.asarray(H0, dtype=dt)
         lossy = cfg.get("fsig") is not None
-        Ws = []
+        # energy of the initial state: H one half-step earlier through the code's own reverse H update (backward())
+        _, Hm1 = vb(jnp.ones((B,), dtype=jnp.int32), E, H)
+        Ws = [Y.energy(cfg, arrays, np.asarray(E), np.asarray(Hm1), np.asarray(H))]
+        ref = None
         for step in range(cfg["T"]):
             Hp = H
             E, H = vf(jnp.full((B,), step, dtype=jnp.int32), E, H)
             Ws.append(Y.energy(cfg, arrays, np.asarray(E), np.asarray(Hp), np.asarray(H)))
+            if ref is None:
+                ref = Y.energy_scale(cfg, arrays, np.asarray(E), np.asarray(Hp), np.asarray(H))  # scale of W1's terms
         Ws = np.stack(Ws)  # (T, B)
-        ref = np.abs(Ws[0])
-        for step in range(1, cfg["T"]):
-            d = (Ws[step] - Ws[step - 1]) / ref
+        for step in range(0, cfg["T"]):
+            d = (Ws[step + 1] - Ws[step]) / ref
             if lossy:
                 rec["mons"].append({"name": f"energy increased over step {step} with non-negative conductivity", "d": Y.scaled(float(np.max(d))), "two": False})
             else:
